@@ -1,4 +1,5 @@
 import PbVerif.Lemmas.TextStr
+import PbVerif.Lemmas.TextStrUnknown
 /-
 C25 — Text string literals encode arbitrary bytes losslessly.
 
@@ -138,5 +139,70 @@ theorem appendString_body_escaped (s : List Byte) (ascii : Bool) (o : List Byte)
     ∃ body, o = 0x22#8 :: (body ++ [0x22#8]) ∧ bodyOK body = true := by
   obtain ⟨body, ho, hp⟩ := appendString_pieces s ascii o h
   exact ⟨body, ho, bodyOK_of_pieces ascii body hp⟩
+
+/-! ## EmitUnknown: `marshalUnknown` is total on every syntactically valid unknown-field set
+
+"Syntactically valid" is made precise by the syntax tree `Unknown.UFields` (Lemmas/TextStrUnknown.lean):
+a sequence of fields, each a tag followed by a varint / 4 bytes / 8 bytes / a length-prefixed payload /
+a group `start-tag fields end-tag` with the same field number.  Tags, varint values, lengths and end
+tags are kept as raw byte strings subject to `isVarintFrom` (any encoding `ConsumeVarint` accepts, so
+NON-MINIMAL encodings are in the language) and `isTag` (field number in `1 ..= MaxInt32`, as `ConsumeTag`
+demands).  `valid` checks those side conditions, `encode` is the concatenation, `depth` the group nesting.
+The bound `depth ≤ 10001` is protowire's own (`DefaultRecursionLimit` = 10000 nested levels below the
+outermost group): deeper sets are rejected by `protowire.ConsumeFieldValue` — hence by `proto.Unmarshal` —
+and can only be planted with `SetUnknown`; for those `marshalUnknown` does panic (`b[n:]` with n = -6;
+observed on the real code, see the engine report). -/
+
+open Model.TextStr.Unknown
+
+/-- **protowire accepts the grammar**: the field scanner used by `proto.Unmarshal` for unknown fields
+(`ConsumeFieldValue` after `ConsumeTag`) accepts every valid field, whatever follows it, and reports
+exactly its length. -/
+theorem consumeFieldValue_valid (f : UField) (rest : List Byte) (hv : f.valid = true) (hd : f.depth ≤ 10001) :
+    consumeTag (f.tag ++ (f.payload ++ rest)) = .ok (tagNum f.tag, f.typ, f.tag.length) ∧
+    consumeFieldValue (tagNum f.tag) f.typ (f.payload ++ rest) = .ok f.payload.length := by
+  refine ⟨consumeTag_ok _ _ _ (f.tag_valid hv), ?_⟩
+  unfold consumeFieldValue
+  exact fieldValue_ok f hv _ _ rest (by simp only [fuelFor, List.length_append]; omega)
+    (by simp only [recursionLimit]; omega)
+
+/-- **`ConsumeGroup` is exact**: on a valid group it returns precisely the encoded body — also when the
+end tag is a non-minimal varint — so `marshalUnknown` recurses on a strictly shorter, again valid,
+byte string. -/
+theorem consumeGroup_exact (tag : List Byte) (body : UFields) (etag rest : List Byte)
+    (hv : (UField.group tag body etag).valid = true) (hd : (UField.group tag body etag).depth ≤ 10001) :
+    consumeGroup (tagNum tag) (body.encode ++ (etag ++ rest))
+        = some (.ok (body.encode, body.encode.length + etag.length)) ∧
+      body.encode.length < (tag ++ (body.encode ++ (etag ++ rest))).length ∧ body.valid = true := by
+  refine ⟨consumeGroup_ok tag body etag rest hv hd, ?_, ?_⟩
+  · simp only [UField.valid, Bool.and_eq_true] at hv
+    have := isTag_length_pos _ _ hv.1.1.1
+    simp only [List.length_append]; omega
+  · simp only [UField.valid, Bool.and_eq_true] at hv
+    exact hv.1.1.2
+
+/-- **`marshalUnknown` never panics on a valid unknown-field set** (either EmitASCII setting): no
+negative length reaches `b[n:]`, the `default:` arm of the wire-type switch is not taken, the slice
+inside `ConsumeGroup` is in range, and `WriteString` does not panic. -/
+theorem marshalUnknown_total (fs : UFields) (ascii : Bool) (hv : fs.valid = true) (hd : fs.depth ≤ 10001) :
+    ∃ out, marshalUnknown fs.encode ascii = some out := by
+  unfold marshalUnknown
+  obtain ⟨e', he⟩ := marshalFields_ok fs hv hd fs.encode.length ascii { lastType := 0, out := [] } (Nat.le_refl _)
+  exact ⟨e'.out, by rw [he]; rfl⟩
+
+/-- the hypotheses are satisfiable by a non-trivial set: a varint field with a non-minimal tag, a bytes
+field with invalid UTF-8, fixed32/fixed64, an empty group, and a nested group (field 2047, two-byte
+tags) whose end tag is written non-minimally in four bytes -/
+def exampleSet : UFields :=
+  .cons (.varint [0x88#8, 0x00#8] [0xff#8, 0xff#8, 0xff#8, 0xff#8, 0xff#8, 0xff#8, 0xff#8, 0xff#8, 0xff#8, 0x01#8]) <|
+  .cons (.bytes [0x12#8] [0x83#8, 0x00#8] [0xff#8, 0x0a#8, 0x22#8]) <|
+  .cons (.fixed32 [0x1d#8] [1#8, 2#8, 3#8, 4#8]) <|
+  .cons (.fixed64 [0x21#8] [1#8, 2#8, 3#8, 4#8, 5#8, 6#8, 7#8, 8#8]) <|
+  .cons (.group [0x2b#8] .nil [0x2c#8]) <|
+  .cons (.group [0xfb#8, 0x7f#8]
+      (.cons (.group [0x0b#8] (.cons (.varint [0x08#8] [0x01#8]) .nil) [0x8c#8, 0x00#8]) .nil)
+      [0xfc#8, 0xff#8, 0x80#8, 0x00#8]) .nil
+
+example : exampleSet.valid = true ∧ exampleSet.depth = 2 := by decide
 
 end C25
